@@ -1,30 +1,30 @@
 SPECIFICATION Spec
 CONSTANTS
-  MaxStmts = 2
-  MaxDepth = 3
+  MaxStmts = 1
+  MaxDepth = 1
   MaxUnits = 1
   MaxVar = 30
-  UnitKinds <- SweepUnits
+  UnitKinds <- SubFun
   ConKinds <- Empty
   SpecKinds <- Empty
   SimpleV <- Set1
-  DeclV <- DeclAll
-  UseV <- UseAll
+  DeclV <- Set1
+  UseV <- Set1
   FormatV <- Set1
   CompV <- Set1
   TbindV <- Set1
-  NameChoices <- Set1
-  EndForms <- Set1
+  NameChoices <- Set0
+  EndForms <- Set02
   LabelStmts = FALSE
   Contains = FALSE
-  PKinds <- KBrk
+  PKinds <- KPar
   MaxEdits = 1
   InsSet <- InsSmall
   MinEdits = 0
   Randomised = FALSE
   DumpMod = 1
   NRepl = 17
-  RichOnly = TRUE
+  RichOnly = FALSE
   NeedStruct = FALSE
   MaxRich = 1
   NCmtCls = 9
